@@ -30,3 +30,19 @@ echo "=== 4 formatter: rename helper and local"
 run fmtrename 'p="internal/parser/packet_dsl_formattor.go"; s=open(p).read()
 s=s.replace("indentComments","indentOwnLineComments").replace("formattedDsl","out")
 open(p,"w").write(s)' C09 C10 C11
+echo "=== 5 lua: rename locals, extra emitted comment lines, Sprintf instead of template"
+run lua 'p="internal/parser/lua_wsp_generator.go"; s=open(p).read()
+s=s.replace("packageName","pktSnake").replace("lenName","lengthVar")
+a="""		code, err := RenderToString(decodeFieldTmpl, "lua", data)
+		if err != nil {
+			return "-- error generating code: " + err.Error() + "\\n"
+		}
+		return code"""
+assert a in s
+s=s.replace(a,"""		_ = data
+		return fmt.Sprintf("%s:%s(fields.%s_%s, buf(offset, %d))\\noffset = offset + %d", treeName, addMethod, pktSnake, fieldName, luaType.Size, luaType.Size)""")
+a="""	b.WriteString(AddIndent4ln("local offset = 0"))"""
+assert a in s
+s=s.replace(a,a+"""
+	b.WriteString(AddIndent4ln("-- fields in declaration order"))""")
+open(p,"w").write(s)' C15 C02 C07 C11 C14
